@@ -50,7 +50,7 @@ def sphere(individual, position, height, width):
 def function1(individual, position, height, width):
     r"""The function1 peak function to be used with scenario 1.
 
-    :math:`f(\mathbf{x}) = \\frac{h}{1 + w \sqrt{\sum_{i=1}^N (x_i - p_i)^2}}`
+    :math:`f(\mathbf{x}) = \\frac{h}{1 + w \sum_{i=1}^N (x_i - p_i)^2}`
 
     """
     value = 0.0
